@@ -668,7 +668,7 @@ func (s *c18State) roundTripStatement(p *c18Payload, st parser.Statement, m c18M
 		if strings.HasSuffix(desc, "[name-needs-enclosure]") {
 			// one class whether the bare name fails to parse or parses to another kind of call
 			sig = "roundtrip:text:" + desc
-		} else if c18URLBeforeDelimiter(culprit) {
+		} else if c18URLBeforeDelimiter(culprit, m) {
 			// one class whatever node holds the URL and whether the print is rejected or read as another URL
 			sig = "roundtrip:text:Url[separator-follows]"
 		}
